@@ -248,6 +248,19 @@ fn scenario(ctx: &Ctx, idx: u64, rep: &mut Report) {
         acts = vec![Act::Call(0, Op::Configure, 0), Act::Call(0, Op::SendPages, 20), Act::Call(0, Op::Show, 0)];
         rep.count("long_transfers_over_the_wire");
     }
+    // one scenario sends raw frames of EVERY data length over both paths (unknown frames of every length 0..=255, data
+    // chunks of every length up to 64 and a few beyond; all lengths as chunks in the thorough tier)
+    if idx == 9 {
+        acts = vec![Act::Call(0, Op::Configure, 0)];
+        for n in 0..=255usize {
+            acts.push(Act::Raw(RefMsg::Unknown { addr: addrs[0], ty: 0x7E, data: rng.bytes(n) }));
+            if n <= 64 || n >= 254 || n % 32 == 0 || !ctx.quick() {
+                acts.push(Act::Raw(RefMsg::Data { offset: n as u16, data: rng.bytes(n) }));
+            }
+        }
+        acts.push(Act::Call(0, Op::SendPages, 1));
+        rep.count("raw_frames_of_every_length_over_the_wire");
+    }
     // every fourth scenario is the full legal tour of one sign (every operation succeeds on a healthy path, so every
     // kind of reply — each acknowledgement, each in-progress and final state — crosses the bridge), with the random
     // acts appended behind it
@@ -642,6 +655,7 @@ pub fn run(ctx: &Ctx) -> Outcome {
         floor("undecodable lines at the bridge", report.get("bridge_undecodable_lines") > 100, report.get("bridge_undecodable_lines")),
         floor("I/O faults at the bridge's own port (read fault at every byte, write fault at every call)", report.get("bridge_read_faults") > 100 && report.get("bridge_write_faults") > 50, report.get("bridge_write_faults")),
         floor("scenarios over a line whose writes block longer than the pacing pause", report.get("scenarios_over_a_slow_line") >= 20, report.get("scenarios_over_a_slow_line")),
+        floor("raw frames of every data length 0..=255 over both paths in one scenario", report.get("raw_frames_of_every_length_over_the_wire") == 1 && report.get("raw_messages_on_both_paths") >= 256 + 70, format!("{} scenario, {} raw messages in all", report.get("raw_frames_of_every_length_over_the_wire"), report.get("raw_messages_on_both_paths"))),
         floor("a transfer of 300 data chunks in a row over the wire", report.get("long_transfers_over_the_wire") == 1 && report.get("long_transfers_that_succeeded_on_both_paths") == 1, format!("{} / {} succeeded on both paths", report.get("long_transfers_over_the_wire"), report.get("long_transfers_that_succeeded_on_both_paths"))),
         floor("70 000 messages through one serial bus and one bridge", report.get("marathon_messages_on_both_paths") == 70_000, report.get("marathon_messages_on_both_paths")),
         floor("bridge pumps checked", report.get("bridge_pumps_checked") > 1000, report.get("bridge_pumps_checked")),
